@@ -20,7 +20,7 @@ import (
 // instrumenter); a select that has to wait ends in the watchdog (exit 2).
 
 const (
-	maxVChans   = 256
+	maxVChans   = 8192 // power of two; open addressing by channel pointer
 	maxVPending = 64
 )
 
@@ -30,42 +30,55 @@ type vitem struct {
 	used  bool
 }
 
+// vqueue is the rendezvous queue of an unbuffered channel (allocated on first use).
+type vqueue struct {
+	items [maxVPending]vitem
+	head  int
+	n     int
+}
+
 type vchan struct {
 	key    unsafe.Pointer
 	closed bool
-	items  [maxVPending]vitem
-	head   int
-	n      int
 	recvs  int // receivers currently waiting (unbuffered)
+	q      *vqueue
 }
 
 var (
-	vchans  [maxVChans]vchan
-	nvchans int
+	vchans    [maxVChans]vchan
+	vchanUsed [maxVChans]int32
+	nvchans   int
 )
 
 //go:norace
 func resetChans() {
 	for i := 0; i < nvchans; i++ {
-		vchans[i] = vchan{}
+		vchans[vchanUsed[i]] = vchan{}
 	}
 	nvchans = 0
 }
 
 //go:norace
 func vchanOf(key unsafe.Pointer) *vchan {
-	for i := 0; i < nvchans; i++ {
-		if vchans[i].key == key {
-			return &vchans[i]
+	h := (uintptr(key) >> 4) * 0x9e3779b1
+	for probe := 0; probe < maxVChans; probe++ {
+		i := (h + uintptr(probe)) & (maxVChans - 1)
+		c := &vchans[i]
+		if c.key == key {
+			return c
+		}
+		if c.key == nil {
+			if nvchans >= maxVChans*3/4 {
+				break
+			}
+			c.key = key
+			vchanUsed[nvchans] = int32(i)
+			nvchans++
+			return c
 		}
 	}
-	if nvchans >= maxVChans {
-		abort("harness-limit", "more than maxVChans channels in one run")
-	}
-	c := &vchans[nvchans]
-	nvchans++
-	c.key = key
-	return c
+	abort("harness-limit", "more than 6144 channels in one run")
+	return nil
 }
 
 //go:norace
@@ -76,23 +89,28 @@ func (c *vchan) setClosed() { c.closed = true }
 
 //go:norace
 func (c *vchan) push(v any) *vitem {
-	if c.n >= maxVPending {
+	if c.q == nil {
+		c.q = new(vqueue)
+	}
+	q := c.q
+	if q.n >= maxVPending {
 		abort("harness-limit", "too many pending senders on one unbuffered channel")
 	}
-	it := &c.items[(c.head+c.n)%maxVPending]
+	it := &q.items[(q.head+q.n)%maxVPending]
 	*it = vitem{v: v, used: true}
-	c.n++
+	q.n++
 	return it
 }
 
 //go:norace
 func (c *vchan) pop() (*vitem, bool) {
-	if c.n == 0 {
+	q := c.q
+	if q == nil || q.n == 0 {
 		return nil, false
 	}
-	it := &c.items[c.head]
-	c.head = (c.head + 1) % maxVPending
-	c.n--
+	it := &q.items[q.head]
+	q.head = (q.head + 1) % maxVPending
+	q.n--
 	it.taken = true
 	return it, true
 }
@@ -233,9 +251,12 @@ func Close[T any](ch chan<- T) {
 
 //go:norace
 func wakeAllItems(c *vchan) {
+	if c.q == nil {
+		return
+	}
 	for i := 0; i < maxVPending; i++ {
-		if c.items[i].used && !c.items[i].taken {
-			Wake(unsafe.Pointer(&c.items[i]))
+		if c.q.items[i].used && !c.q.items[i].taken {
+			Wake(unsafe.Pointer(&c.q.items[i]))
 		}
 	}
 }
@@ -307,7 +328,12 @@ func CanSend[T any](ch chan<- T, v T) SelCase {
 var selectAddr byte
 
 //go:norace
-func (c *vchan) pending() int { return c.n }
+func (c *vchan) pending() int {
+	if c.q == nil {
+		return 0
+	}
+	return c.q.n
+}
 
 //go:norace
 func (c *vchan) waitingRecvs() int { return c.recvs }
@@ -475,7 +501,7 @@ type vtimer struct {
 }
 
 var (
-	vtimers  [64]vtimer
+	vtimers  [2048]vtimer
 	nvtimers int
 )
 
